@@ -33,10 +33,10 @@ ASSUMPTIONS = [
 ]
 
 AMOUNTS = ["0", "1", "-1", "2.5", "1e3", "1e-3", ".5", "+3", "7e-1", "12", "16", "25.4", "72", "96"]
-PAIR_AMTS = ["0", "1", "-2.5", "3", "12", "25.4"]
+PAIR_AMTS = ["0", "1", "-2.5", "3", "12", "25.4", "1e-5", "2e-5"]
 AMOUNTS_T = ["-0", "0.0", "1e5", "-1e5", "3.14159265358979", "1e-9", "-7.25", "100", "1000", "0.001", "6", "2.54", "10", "33.333333333333"]
 RELS = [None, ("num", 200), ("numstr", "200"), ("str", "50mm"), ("len", "3in"), ("len", "40"), ("num", 0), ("num", -80),
-        ("numstr", "0")]
+        ("numstr", "0"), ("str", "2ex"), ("len", "1.5em"), ("str", "3pc")]
 FULL = dict(ppi=96, rel=F(200), font_size=16, font_height=8, viewbox=(F(0), F(0), F(200), F(100)))
 FULL_KW = dict(ppi=96, relative_length=200, font_size=16, font_height=8, viewbox="0 0 200 100")
 
@@ -53,7 +53,7 @@ def make_ctx(ppi, rel, font, vb, in_per_cm=ls.EXACT_IN_PER_CM):
             r = F(str(v))
         else:
             import re
-            m = re.match(r"([-+0-9.eE]+)([a-z%]*)", v)
+            m = re.match(r"([-+]?(?:\d+\.?\d*|\.\d+)(?:[eE][-+]?\d+)?)([a-z%]*)", v)
             r = ("len", m.group(1), m.group(2))
     viewbox = None
     if vb is not None:
@@ -71,7 +71,7 @@ class Value(SubCheck):
         if tier == "thorough":
             amounts = AMOUNTS + AMOUNTS_T
             ppis = [96, 72, 300, None, 1, 25.4, 254, 1200, 90.5]
-        self.p = Product(amounts, ls.UNITS, ppis, RELS, [False, True],
+        self.p = Product(amounts, ls.UNITS, ppis, RELS, [False, True, "len"],
                          [None, "0 0 200 100", "0 0 100 200"])
 
     def size(self):
@@ -100,7 +100,11 @@ class Value(SubCheck):
             kw["relative_length"] = v if kind in ("num", "numstr", "str") else svg.Length(v)
             if kind == "numstr":
                 kw["relative_length"] = v
-        if case["font"]:
+        if case["font"] == "len":
+            # the font metrics given as Length objects of other units (1pc = 16px, 6pt = 8px)
+            kw["font_size"] = svg.Length("1pc")
+            kw["font_height"] = svg.Length("6pt")
+        elif case["font"]:
             kw["font_size"] = 16
             kw["font_height"] = 8
         if case["viewbox"] is not None:
@@ -326,6 +330,17 @@ class Convert(SubCheck):
         out.outcome = (r.units, round(r.amount, 9))
         if r.units != unit or not close(r.amount, exp):
             out.fail("Length(%r).%s(ppi=%r)" % (a + u, fn, ppi), "%r%s" % (float(exp), unit), str(r), **tags)
+        # the other conversion accessors of the pixel family (context-free): float(), in_pixels()
+        if u in ("", "px", "pt", "pc") and fn == "to_mm":
+            px = ls.resolve(a, u, ctx)
+            for nm, call in (("float()", lambda: float(L)), ("in_pixels()", lambda: L.in_pixels())):
+                try:
+                    g = call()
+                except Exception as e:  # noqa
+                    out.fail("%s of Length(%r) raised %s" % (nm, a + u, type(e).__name__), float(px), repr(e), kind="accessor", fn=nm, unit=u)
+                    continue
+                if g is None or not close(g, px):
+                    out.fail("%s of Length(%r)" % (nm, a + u), float(px), g, kind="accessor", fn=nm, unit=u)
         return out
 
 
